@@ -110,7 +110,28 @@ class GlobalGenMonitor(Monitor):
         return True
 
 
-def run_digest(sc: dict, junk: int) -> dict:
+def _rebuild_from_state(w, sc, disk, holder):
+    """Replace the world's driver by one rebuilt with from_dict from a state dictionary that is shared (the same
+    dict object) by all executions of the scenario."""
+    from simkit import calcs
+
+    mc0 = w.mc
+    if "state" not in holder:
+        holder["state"] = mc0.to_dict()
+    kw = {}
+    files = sc.get("files", {})
+    for role in ("logfile", "trajectory"):
+        if role in files:
+            kw[role] = disk.open(files[role]["name"] + ".rebuilt", "a")
+    if "logging_interval" in files:
+        kw["logging_interval"] = files["logging_interval"]
+    mc0.close()
+    mc = type(mc0).from_dict(holder["state"], **kw)
+    mc.atoms.calc = calcs.make_calc(sc["calc"])
+    w.mc, w.atoms, w.calc = mc, mc.atoms, mc.atoms.calc
+
+
+def run_digest(sc: dict, junk: int, holder: dict | None = None) -> dict:
     """Execute the scenario; -> {'events': [...], 'files': {...}, 'touched': [...], 'error': ...}"""
     import warnings
 
@@ -120,6 +141,8 @@ def run_digest(sc: dict, junk: int) -> dict:
     opts = {"simgen": False, "tape_criteria": False, "probe_check_move": False, "probe_distribution": False}
     try:
         w = make_world(sc, [mon], opts, disk)
+        if holder is not None and sc.get("route") == "from_dict" and hasattr(w.mc, "from_dict"):
+            _rebuild_from_state(w, sc, disk, holder)
         w.run()
     except Exception as e:  # noqa: BLE001
         info = classify_exception(e)
@@ -189,6 +212,8 @@ class C06(HistoryCampaign):
             sc.pop("faults", None)
         sc["seed"] = rnd.choice(SEEDS)
         sc["seed_kind"] = rnd.choice(["int", "int", "int", "np.int64", "np.uint64", "np.uint32"])
+        if sc["driver"] not in ("ForceBias", "AdaptiveForceBias") and rnd.random() < 0.25:
+            sc["route"] = "from_dict"  # both simulations are rebuilt from one and the same state dictionary
         files = {"logging_interval": rnd.choice([1, 1, 2])}
         if rnd.random() < 0.8:
             files["logfile"] = {"name": "log.txt", "as": "object", "mode": "a"}
@@ -210,8 +235,9 @@ class C06(HistoryCampaign):
     def execute(self, sc):
         res = RunResult()
         drv = sc["driver"]
-        a = run_digest(sc, junk=1)
-        b = run_digest(sc, junk=2)
+        holder = {}
+        a = run_digest(sc, junk=1, holder=holder)
+        b = run_digest(sc, junk=2, holder=holder)
         for r in (a, b):
             if r.get("harness_error"):
                 res.harness_error = r["harness_error"]
